@@ -329,6 +329,12 @@ fn main() {
     let paths = paths();
 
     if let Some(case) = &cli.case {
+        if case["kind"] == "perm" {
+            // replay of an order-independence finding: re-run the permutation check (it is
+            // deterministic and small) and keep the findings
+            check_permutations(&cli, &r);
+            r.emit();
+        }
         let ops = ops_from(&case["ops"]);
         match case["kind"].as_str().unwrap() {
             "filters" => {
